@@ -11,6 +11,7 @@ class Program:
         self.transparent = set()   # keys of helpers spliced into their callers (analysis/inline.py)
         self.adopted = defaultdict(list)   # caller key -> closures of helpers spliced into it
         self.host_of = {}          # transparent helper key -> one caller key (for attribution)
+        self.async_helpers = defaultdict(list)   # root fn key -> new async fns it calls (adopted, not spliced)
         self.ix = {}            # key -> index record
         self.by_name = defaultdict(list)  # display name -> [key]
         self.adts = {}          # key -> adt record
@@ -57,8 +58,22 @@ class Program:
         base = _inl.load_baseline()
         if base is None:
             return
-        cand = {k for k, r in self.ix.items() if r["kind"] in ("fn", "method") and r["name"] not in base
-                and "::tests::" not in r["name"] and not self.coroutine_of(k)}
+        newfns = {k for k, r in self.ix.items() if r["kind"] in ("fn", "method") and r["name"] not in base and "::tests::" not in r["name"]}
+        cand = {k for k in newfns if not self.coroutine_of(k)}
+        # new `async fn`s cannot be spliced (their body is a coroutine of its own); they are *adopted*: their bodies
+        # count as nested bodies of every function that calls them (with_closures), so that rules which look at
+        # "the body of X and everything nested in it" still see the moved statements
+        self.async_helpers = defaultdict(list)
+        for k, r in self.ix.items():
+            for c in r["calls"]:
+                ck = c["f"].get("rkey") or c["f"].get("key")
+                if ck in newfns and ck != k and self.coroutine_of(ck):
+                    root = r.get("root") or k
+                    if ck not in self.async_helpers[root]:
+                        self.async_helpers[root].append(ck)
+                    bodies = [self.coroutine_of(ck)] + [c2 for c2 in self.children.get(ck, [])]
+                    self.adopted[k] = sorted(set(self.adopted[k]) | set(bodies))
+                    self.host_of.setdefault(ck, k)
         if not cand:
             return
         # only helpers that are actually called directly by somebody (entry points stay functions of their own)
